@@ -320,6 +320,11 @@ class SlotFlow:
             # successors with edge refinement
             cond, neg = cfg.branch_atom(b)
             succ = blk['succ']
+            if cond is not None and len(succ) == 2 and succ[0] != succ[1] and st == EMPTY and self._is_slot_test(fn, cond):
+                # the slot is tested where it is known to be empty on every path: the test cannot succeed
+                checks[('dead', cond['i'])] = ('test-when-empty', cond, UNK)
+            elif cond is not None and ('dead', cond.get('i')) in checks and st != EMPTY:
+                del checks[('dead', cond['i'])]
             for idx, s in enumerate(succ):
                 if s is None:
                     continue
@@ -356,10 +361,10 @@ class SlotFlow:
                 if ex_u == EMPTY and f.usr not in self.emptier and self._touches(f):
                     self.emptier.add(f.usr)
                     changed = True
-                bad_u = [c for c in ch_u.values() if c[2] != EMPTY]
+                bad_u = [c for c in ch_u.values() if c[2] != EMPTY and c[0] != 'test-when-empty']
                 if bad_u:
                     ex_e, ch_e = self.analyse(f, EMPTY)
-                    bad_e = [c for c in ch_e.values() if c[2] != EMPTY]
+                    bad_e = [c for c in ch_e.values() if c[2] != EMPTY and c[0] != 'test-when-empty']
                     if not bad_e and f.usr not in self.pre:
                         self.pre.add(f.usr)
                         changed = True
@@ -377,6 +382,9 @@ class SlotFlow:
             ex_u, ch_u = self.analyse(f, UNK)
             ex_e, ch_e = self.analyse(f, EMPTY)
             for nid, (kind, node, st) in ch_u.items():
+                if kind == 'test-when-empty':
+                    out.append((f, kind, node, False, False))
+                    continue
                 ok_u = st == EMPTY
                 ok_e = ch_e.get(nid, (None, None, None))[2] == EMPTY
                 out.append((f, kind, node, ok_u, (not ok_u) and ok_e))
